@@ -4,6 +4,8 @@
 
     reg <i|t> <M> <ntrain> <nq> <target>*ntrain  (<out>*(ntrain+nq))*M      (i = individual, t = team)
         -> ans <v|u>*(ntrain+nq) acc <a>
+    regf <mae|rmae|mse|count> <i|t> <M> <ntrain> <nq> <target>*ntrain  (<out>*(ntrain+nq))*M
+        -> ans <v|u>*(ntrain+nq) acc <a> fit <f>     (fit: C05's evaluator of that kind fed with the MODEL's values)
     <dyn|gau|bin> <wta|mv|-> <classes> <xslot> <M> <ntrain> <nq> <label>*ntrain (<out>*(ntrain+nq))*M
         -> ans (<label> <sureness>)*(ntrain+nq) acc <a> fit <f>
   `M` = number of programs (1 = an individual, `-`), outputs are per member, training rows first.
@@ -11,6 +13,7 @@
   rows (`-` for a majority-voting team: no evaluator uses it).
 -/
 import Vita.C08.Model
+import Vita.C08.Bridge
 open Vita.C05 Vita.C08
 
 @[extern "fma"] opaque cFma : Float → Float → Float → Float
@@ -54,7 +57,11 @@ def showFit (fit : List Float) : String :=
   | [f] => showF f
   | _ => "bad"
 
-def answerReg (team : Bool) (m ntrain nq : Nat) (rest : List String) : String :=
+def parseKind (s : String) : Option ErrKind :=
+  if s == "mae" then some .mae else if s == "rmae" then some .rmae
+  else if s == "mse" then some .mse else if s == "count" then some .count else none
+
+def answerReg (kind : Option ErrKind) (team : Bool) (m ntrain nq : Nat) (rest : List String) : String :=
   match (rest.take ntrain).mapM parseF, ((rest.drop ntrain).mapM parseO) with
   | some targets, some outs =>
     match chunks (ntrain + nq) m outs with
@@ -62,7 +69,13 @@ def answerReg (team : Bool) (m ntrain nq : Nat) (rest : List String) : String :=
       let vals := (List.range (ntrain + nq)).map (fun i =>
         if !team then regValue ((column tbl i).getD 0 none) else teamValue (column tbl i))
       let acc : Float := accuracyReg ((vals.take ntrain).zip targets)
-      "ans" ++ String.join (vals.map (fun v => " " ++ showO v)) ++ " acc " ++ showF acc
+      let fit := match kind with
+        | none => ""
+        | some k =>
+          -- the sum-of-errors evaluator of C05 scoring the values THIS model returns
+          let exs : List (Ex Float) := ((vals.take ntrain).zip targets).map (fun (o, t) => ⟨o, t, 0⟩)
+          " fit " ++ showFit (evalFull (errF k) exs).1
+      "ans" ++ String.join (vals.map (fun v => " " ++ showO v)) ++ " acc " ++ showF acc ++ fit
     | none => "bad-op"
   | _, _ => "bad-op"
 
@@ -86,9 +99,17 @@ def answerCls (kind comp : String) (classes xslot m ntrain nq : Nat) (rest : Lis
       let trainAns := ans.take ntrain
       let acc : Float := accuracyClass ((trainAns.map (·.1)).zip labels)
       let cexs : List (CEx Float) := (trainAns.zip labels).map (fun (t, l) => ⟨t.1, t.2, l, 0⟩)
+      -- the fitness: C05's END-TO-END evaluator model (Classify.lean) fed with the member outputs – by
+      -- `dyn/gauss/bin_evaluator_scores_lambdify` it scores exactly the answers computed above; both
+      -- routes are evaluated and must agree
+      let texs : List (Cls.TEx Float) := (List.range ntrain).map (fun i => ⟨column tbl i, labels.getD i 0, 0⟩)
+      let fitE := if kind == "dyn" then (@Cls.dynSlotEvaluator Float (numC floatFns) classes xslot m texs).1
+        else if kind == "gau" then (@Cls.gaussianEvaluator Float (numC floatFns) classes m texs).1
+        else (@Cls.binaryEvaluator Float (numC floatFns) m texs).1
+      let fitM := if kind == "gau" then (gaussEval (NumN.ofNat (classes - 1)) cexs).1 else (countEval cexs).1
       let fit := if comp == "mv" then "-"
-        else if kind == "gau" then showFit (gaussEval (NumN.ofNat (classes - 1)) cexs).1
-        else showFit (countEval cexs).1
+        else if showFit fitE == showFit fitM then showFit fitM
+        else "evaluator-model-mismatch " ++ showFit fitE ++ " " ++ showFit fitM
       "ans" ++ String.join (ans.map (fun t => " " ++ toString t.1 ++ " " ++ showF t.2)) ++
         " acc " ++ showF acc ++ " fit " ++ fit
     | none => "bad-op"
@@ -100,8 +121,14 @@ def answer (line : String) : String :=
     match m.toNat?, ntrain.toNat?, nq.toNat? with
     | some m, some ntrain, some nq =>
       if m == 0 || (ti != "i" && ti != "t") || (ti == "i" && m != 1) then "bad-op"
-      else answerReg (ti == "t") m ntrain nq rest
+      else answerReg none (ti == "t") m ntrain nq rest
     | _, _, _ => "bad-op"
+  | "regf" :: kind :: ti :: m :: ntrain :: nq :: rest =>
+    match parseKind kind, m.toNat?, ntrain.toNat?, nq.toNat? with
+    | some k, some m, some ntrain, some nq =>
+      if m == 0 || (ti != "i" && ti != "t") || (ti == "i" && m != 1) then "bad-op"
+      else answerReg (some k) (ti == "t") m ntrain nq rest
+    | _, _, _, _ => "bad-op"
   | kind :: comp :: classes :: xslot :: m :: ntrain :: nq :: rest =>
     if kind != "dyn" && kind != "gau" && kind != "bin" then "bad-op"
     else if comp != "-" && comp != "wta" && comp != "mv" then "bad-op"
